@@ -23,6 +23,24 @@ for r, i in zip(r1 + r2, i1 + i2):
         w = "implementation did not return normally: " + i
     if w:
         c = oom.finding_class(r, i, None, w); cls[c] += 1; ex.setdefault(c, (r, i[:160], w))
+if "--coverage" in sys.argv:
+    # per operation: library-class fault sites by group (proved ladder / leaf / observed only), see tools/gen/oom.py LADDER_FUNCS
+    per = collections.defaultdict(collections.Counter); funcs = collections.Counter()
+    for r, i in zip(r2, i2):
+        t = r.split()
+        if t[2] == "lib" and oom._field(i, "fired") == "1":
+            g = oom.site_group(oom._field(i, "site")); per[t[1]][g] += 1; funcs[(g, oom._field(i, "site"))] += 1
+    tot = collections.Counter()
+    print("%-28s %7s %7s %9s %6s" % ("operation", "proved", "leaf", "observed", "total"))
+    for op in sorted(per):
+        c = per[op]; tot.update(c)
+        print("%-28s %7d %7d %9d %6d" % (op, c["proved"], c["leaf"], c["observed"], sum(c.values())))
+    n = sum(tot.values())
+    print("%-28s %7d %7d %9d %6d   (%.0f%% of the library-class sites inside a proved ladder, %.0f%% leaves)" %
+          ("ALL", tot["proved"], tot["leaf"], tot["observed"], n, 100.0 * tot["proved"] / max(n, 1), 100.0 * tot["leaf"] / max(n, 1)))
+    print("functions by number of fault sites:")
+    for (g, f), k in sorted(funcs.items(), key=lambda x: -x[1]):
+        print("  %4d %-9s %s" % (k, g, f))
 print("requests", len(r1) + len(r2), "fired", fired, "failing", sum(cls.values()), "classes", len(cls))
 for c, n in sorted(cls.items()):
     print("%4d %s    e.g. %s" % (n, c, ex[c][0]))
